@@ -10,6 +10,7 @@ use crate::infra::*;
 use crate::props::common::*;
 use serde_json::json;
 use std::collections::HashMap;
+use std::time::Instant;
 
 pub const RULE: &str = "set-of-classes model checked after every insert with a full-universe sweep. (a) exhaustive DFS over every insertion sequence of distinct classes up to capacity+1 and every sequence with one repeat for (q,r) in {(1,1),(1,2),(2,1),(2,2)} under the Identity hasher; (b) thorough: every quotient sequence of length <= 8 for q=3; (c) capacity boundary of tables with 2^12..2^25 (2^26 thorough) slots, one class per slot; (d) random and crafted (20 % with a clear() in the middle, 25 % continuing on a clone) (hot quotient, wrap-around, full table) histories for q<=8, r<=16 (every 6th item r in {33,40,48,64-q}, universes with single-bit-neighbour fingerprints) with Identity/Mix/Sip/Collide hashers. non-trivial = history with >= 1 shift step or a Full error; distinct = distinct (config, insertion sequence) hashes";
 pub const ASSUMPTIONS: &[&str] = &[
@@ -473,50 +474,65 @@ pub fn random_item(ctx: &Ctx, i: usize, rep: &mut Report) {
     rep.count("sweep_queries", queries);
 }
 
-/// Capacity boundary of a big table: one class per slot (Identity hasher, no shifting), the table
-/// must accept exactly 2^q classes and report Full for the next new one.
+/// Capacity boundary of a big table. The keys are crafted so that the pinned tree puts one class
+/// into every slot without shifting (fast), but nothing below relies on that: whether a key is a
+/// new class is read from the filter itself (`query` before the insert - C13's own definition of
+/// "an indistinguishable element was inserted"), so an implementation that cuts its fingerprints
+/// differently is judged by the same rule. The table must accept new classes until len() = 2^q
+/// and then answer Err(Full) to new and Ok(false) to known ones.
 fn capacity_boundary(q: usize, rep: &mut Report) {
     let cfg = QfCfg { q, r: 1, bh: CtlBuildHasher::identity() };
     let label = cfg.label();
     rep.config(&label);
     let n = 1u64 << q;
+    let t0 = Instant::now();
+    let mut reached_full = false;
     let res = guarded(|| -> Option<(String, String)> {
         let mut f = cfg.make();
-        for quot in 0..n {
-            if quot & 0xf_ffff == 0 {
-                beat();
+        let mut len = 0u64;
+        let mut after_full = 0u32;
+        // remainder 0 for every quotient first, then remainder 1, then the remainder-0 keys again
+        for step in 0..3 * n {
+            if step & 0xf_ffff == 0 && t0.elapsed().as_secs() > 60 {
+                return None; // a slower layout: give up on this table, nothing was wrong so far
             }
-            let k = qf_fp_key(&cfg, quot << 1); // remainder 0
-            match Flt::insert(&mut f, k) {
-                Ok(true) => {}
-                other => {
-                    return Some((
-                        format!("C13/insert-result/expected-Ok(true)-got-{}", match other { Ok(false) => "Ok(false)", _ => "Err(Full)" }),
-                        format!("insert of new class #{} of {} (one per slot) returned {:?} with len() = {}", quot + 1, n, other, Flt::len(&f)),
-                    ))
+            let v = if step < n { step << 1 } else if step < 2 * n { ((step - n) << 1) | 1 } else { (step - 2 * n) << 1 };
+            let k = qf_fp_key(&cfg, v);
+            let known = Flt::query(&f, k);
+            let res = Flt::insert(&mut f, k);
+            let want = if known { Ok(false) } else if len == n { Err(()) } else { Ok(true) };
+            if res != want {
+                let name = |x: &Result<bool, ()>| match x { Ok(true) => "Ok(true)", Ok(false) => "Ok(false)", Err(()) => "Err(Full)" };
+                return Some((
+                    format!("C13/insert-result/expected-{}-got-{}", name(&want), name(&res)),
+                    format!("insert #{} (key {:#x}): query() said {} before the insert and len() was {} of {}, insert returned {}", step + 1, k, if known { "present" } else { "absent" }, len, n, name(&res)),
+                ));
+            }
+            if res == Ok(true) {
+                len += 1;
+                if !Flt::query(&f, k) {
+                    return Some(("C13/query/false-negative".into(), format!("key {:#x} is absent right after insert returned Ok(true)", k)));
                 }
             }
-            if quot + 1 == n - 1 || quot + 1 == n {
-                if Flt::len(&f) as u64 != quot + 1 {
-                    return Some(("C13/len".into(), format!("len() = {} after {} distinct classes", Flt::len(&f), quot + 1)));
+            if (len == n - 1 || len == n || step & 0xffff == 0) && Flt::len(&f) as u64 != len {
+                return Some(("C13/len".into(), format!("len() = {} after {} distinct classes", Flt::len(&f), len)));
+            }
+            if len == n {
+                reached_full = true;
+                after_full += 1;
+                if after_full > 64 && step >= 2 * n {
+                    break;
                 }
-            }
-        }
-        // full: a new class must be rejected, known ones are known, absent ones absent
-        for quot in [0u64, 1, n / 2, n - 1] {
-            let (k0, k1) = (qf_fp_key(&cfg, quot << 1), qf_fp_key(&cfg, (quot << 1) | 1));
-            if Flt::insert(&mut f, k1) != Err(()) {
-                return Some(("C13/insert-result/expected-Err(Full)-got-Ok".into(), format!("a new class was accepted by a table holding 2^{} classes", q)));
-            }
-            if Flt::insert(&mut f, k0) != Ok(false) {
-                return Some(("C13/insert-result/expected-Ok(false)-got-other".into(), "re-insert of a known class into a full table".into()));
-            }
-            if !Flt::query(&f, k0) || Flt::query(&f, k1) {
-                return Some(("C13/query/false-positive-from-bookkeeping".into(), format!("full table: wrong query answer around quotient {}", quot)));
+                if after_full > 4096 {
+                    break;
+                }
             }
         }
         None
     });
+    if !reached_full && res.as_ref().map(|x| x.is_none()).unwrap_or(false) {
+        rep.count("capacity_boundary_not_reached(crafted keys alias or time budget)", 1);
+    }
     rep.evaluations += n;
     rep.count("capacity_boundary_tables", 1);
     match res {
